@@ -2,6 +2,7 @@ package props
 
 import (
 	"fmt"
+	"go/ast"
 	"go/types"
 	"strings"
 
@@ -217,6 +218,7 @@ func c40(c *an.Check) {
 		}
 		c.Note("thorough: NILDEREF over %d further (value, error) call sites and OWNERSHIP over %d further pool releases in %d repository functions: %d cross-reference notes, %d functions not examined (state budget of the sweep)", n1, n2, len(rest), bad, skipped)
 	}
+	sizeVTSanity(c, func(string) bool { return true })
 	nRel := c.ReleasedNotReturned("OWNERSHIP", "network decoder: returned values do not alias released pool storage", fns)
 	c.Note("OWNERSHIP examined %d sync.Pool releases in the decoder functions", nRel)
 	c.Totality(an.PanicSpec{Construct: "network decoder totality", Funcs: fns, BCE: bce, Min: 70, Preconds: pre, Reviewed: map[string]string{
@@ -249,4 +251,61 @@ func init() {
 func vtSafeRecv(f *types.Func) bool {
 	n := f.Name()
 	return strings.HasPrefix(n, "Get") || n == "SizeVT" || n == "CloneVT" || n == "EqualVT"
+}
+
+// sizeVTSanity: in the generated SizeVT methods the argument of a varint-size computation is a field's own value or
+// length, never the running total (the named result): a size that feeds on the total over-reports at varint boundaries
+// and the length prefix written from SizeVT() no longer matches the bytes MarshalToSizedBufferVT produces.
+func sizeVTSanity(c *an.Check, pkgs func(path string) bool) {
+	p := c.P
+	n, bad := 0, ""
+	for path, pk := range p.All {
+		if !strings.HasPrefix(path, an.Mod) || !pkgs(strings.TrimPrefix(path, an.Mod+"/")) || pk.TypesInfo == nil {
+			continue
+		}
+		for _, f := range pk.Syntax {
+			for _, d := range f.Decls {
+				fd, ok := d.(*ast.FuncDecl)
+				if !ok || fd.Name.Name != "SizeVT" || fd.Body == nil || fd.Type.Results == nil || len(fd.Type.Results.List) == 0 || len(fd.Type.Results.List[0].Names) == 0 {
+					continue
+				}
+				res := pk.TypesInfo.Defs[fd.Type.Results.List[0].Names[0]]
+				if res == nil {
+					continue
+				}
+				n++
+				ast.Inspect(fd.Body, func(nd ast.Node) bool {
+					call, ok := nd.(*ast.CallExpr)
+					if !ok {
+						return true
+					}
+					name := ""
+					switch fn := call.Fun.(type) {
+					case *ast.SelectorExpr:
+						name = fn.Sel.Name
+					case *ast.Ident:
+						name = fn.Name
+					}
+					if name != "SizeOfVarint" && name != "SizeOfZigzag" && name != "sov" {
+						return true
+					}
+					for _, a := range call.Args {
+						ast.Inspect(a, func(x ast.Node) bool {
+							if id, ok := x.(*ast.Ident); ok && pk.TypesInfo.Uses[id] == res {
+								bad = fmt.Sprintf("%s: a varint size is computed from the running total at %s", path, p.Fset.Position(id.Pos()))
+							}
+							return true
+						})
+					}
+					return true
+				})
+			}
+		}
+	}
+	c.Require(bad == "" && n >= 1, "SIBLING", "generated SizeVT methods size each field from its own value, never from the running total", nil, "", n, fmt.Sprintf("%d SizeVT methods", n), func() string {
+		if bad != "" {
+			return bad
+		}
+		return "no SizeVT methods found in the selected packages (anchor drift)"
+	}())
 }
